@@ -582,6 +582,47 @@ class _Ctx:
         return None
 
     # ------------------------------------------------------------------ statements
+    def _loop_over(self, target: ast.expr, it: ast.expr, body: List[ast.stmt], depth=0) -> Optional[List[ast.stmt]]:
+        """`for target in it: body` where `it` is a generator expression / map / filter written in place: the nested loop it
+        abbreviates (one generator, evaluated lazily element by element - the same order of effects)."""
+        g = it
+        if isinstance(g, ast.Call):
+            g = self._functional_as_genexp(g, State())
+        if isinstance(g, ast.Call) and isinstance(g.func, ast.Name) and g.func.id in ('list', 'tuple', 'iter') and len(g.args) == 1 and not g.keywords:
+            return self._loop_over(target, g.args[0], body, depth)
+        if not isinstance(g, (ast.GeneratorExp, ast.ListComp)) or len(g.generators) != 1 or g.generators[0].is_async or depth > 3:
+            return None
+        gen = g.generators[0]
+        inner = [ast.Assign(targets=[target], value=g.elt)] + body
+        if isinstance(target, ast.Name) and isinstance(g.elt, ast.Name) and g.elt.id == target.id:
+            inner = body
+        for c in reversed(gen.ifs):
+            inner = [ast.If(test=c, body=inner, orelse=[])]
+        nested = self._loop_over(gen.target, gen.iter, inner, depth + 1)
+        if nested is not None:
+            return nested
+        return [ast.For(target=gen.target, iter=gen.iter, body=inner, orelse=[], type_comment=None)]
+
+    def _desugar_extend(self, s: ast.stmt) -> Optional[List[ast.stmt]]:
+        """`lst.extend(<generator expression / map / filter>)` on a local list: the loop with `lst.append(element)`."""
+        if not (isinstance(s, ast.Expr) and isinstance(s.value, ast.Call) and isinstance(s.value.func, ast.Attribute) and
+                s.value.func.attr == 'extend' and isinstance(s.value.func.value, ast.Name) and len(s.value.args) == 1 and not s.value.keywords):
+            return None
+        lst = s.value.func.value
+        var = f"_x{s.lineno}_{s.col_offset}"
+        app = ast.Expr(value=ast.Call(func=ast.Attribute(value=ast.Name(id=lst.id, ctx=ast.Load()), attr='append', ctx=ast.Load()),
+                                      args=[ast.Name(id=var, ctx=ast.Load())], keywords=[]))
+        out = self._loop_over(ast.Name(id=var, ctx=ast.Store()), s.value.args[0], [app])
+        if out is None:
+            it = s.value.args[0]
+            if isinstance(it, (ast.List, ast.Tuple, ast.Constant, ast.Name, ast.BinOp)):
+                return None          # extending by a list value: one store, handled as such
+            out = [ast.For(target=ast.Name(id=var, ctx=ast.Store()), iter=it, body=[app], orelse=[], type_comment=None)]
+        for o in out:
+            ast.copy_location(o, s)
+            ast.fix_missing_locations(o)
+        return out
+
     @staticmethod
     def _desugar_setdefault(s: ast.stmt) -> Optional[List[ast.stmt]]:
         """`x = d.setdefault(k, v)` / `d.setdefault(k, v)` / `d.setdefault(k, v).m(...)` as the test-and-store it abbreviates:
@@ -680,7 +721,7 @@ class _Ctx:
         for s in stmts:
             ds = getattr(s, '_desugared', None)
             if ds is None:
-                ds = self._desugar_setdefault(s) or self._desugar_ifexp(s) or self._desugar_shortcircuit(s) or False
+                ds = self._desugar_setdefault(s) or self._desugar_ifexp(s) or self._desugar_shortcircuit(s) or self._desugar_extend(s) or False
                 try:
                     s._desugared = ds
                 except Exception:
@@ -2345,8 +2386,117 @@ class _Ctx:
         finally:
             st.env = saved_env
 
+    def _functional_as_genexp(self, e: ast.Call, st: State):
+        """filter(F, X) / map(F, X) written with a lambda, a bound `d.__getitem__` or operator.methodcaller / itemgetter /
+        attrgetter: the generator expression it abbreviates (same elements, same order, same laziness)."""
+        f = e.func
+        if isinstance(f, ast.Name) and f.id == 'zip' and f.id not in st.env and len(e.args) == 2 and not e.keywords \
+                and self.prog.resolve_name('zip', self.fn.module) is None:
+            # zip(repeat(K), V) / zip(V, repeat(K)): ((K, v) for v in V)
+            def rep(a):
+                if isinstance(a, ast.Call) and len(a.args) == 1 and not a.keywords:
+                    r_ = self.prog.resolve_name(a.func.id, self.fn.module) if isinstance(a.func, ast.Name) else \
+                        self.prog.resolve_expr_static(a.func, self.fn.module) if isinstance(a.func, ast.Attribute) else None
+                    if r_ and r_[0] == 'ext' and r_[1] == 'itertools.repeat':
+                        return a.args[0]
+                return None
+            k0, k1 = rep(e.args[0]), rep(e.args[1])
+            if (k0 is None) != (k1 is None):
+                var = f"_z{e.lineno}_{e.col_offset}"
+                xv = ast.Name(id=var, ctx=ast.Load())
+                K, V = (k0, e.args[1]) if k0 is not None else (k1, e.args[0])
+                if not any(isinstance(n, ast.Call) for n in ast.walk(K)):
+                    elt = ast.Tuple(elts=[K, xv] if k0 is not None else [xv, K], ctx=ast.Load())
+                    g = ast.GeneratorExp(elt=elt, generators=[ast.comprehension(target=ast.Name(id=var, ctx=ast.Store()), iter=V, ifs=[], is_async=0)])
+                    ast.copy_location(g, e)
+                    ast.fix_missing_locations(g)
+                    return g
+            return None
+        if not (isinstance(f, ast.Name) and f.id in ('map', 'filter') and f.id not in st.env and len(e.args) == 2 and not e.keywords
+                and self.prog.resolve_name(f.id, self.fn.module) is None):
+            return None
+        F, X = e.args
+        if any(isinstance(y, ast.Starred) for y in (F, X)):
+            return None
+        var = f"_{f.id[0]}{e.lineno}_{e.col_offset}"
+        x = ast.Name(id=var, ctx=ast.Load())
+
+        def apply(F):
+            if isinstance(F, ast.Lambda) and len(F.args.args) == 1 and not (F.args.vararg or F.args.kwarg or F.args.kwonlyargs or F.args.defaults):
+                p = F.args.args[0].arg
+
+                class R(ast.NodeTransformer):
+                    def visit_Name(s, n):
+                        return ast.copy_location(ast.Name(id=var, ctx=n.ctx), n) if n.id == p else n
+
+                    def visit_Lambda(s, n):
+                        return n if any(a.arg == p for a in n.args.args) else s.generic_visit(n)
+                import copy
+                return R().visit(copy.deepcopy(F.body))
+            if isinstance(F, ast.Attribute) and F.attr == '__getitem__':
+                return ast.Subscript(value=F.value, slice=x, ctx=ast.Load())
+            if isinstance(F, ast.Call) and not F.keywords:
+                fn_ = F.func.attr if isinstance(F.func, ast.Attribute) else (F.func.id if isinstance(F.func, ast.Name) else None)
+                r_ = self.prog.resolve_expr_static(F.func, self.fn.module) if isinstance(F.func, ast.Attribute) else \
+                    self.prog.resolve_name(fn_, self.fn.module) if fn_ else None
+                ext = r_[1] if r_ and r_[0] == 'ext' else None
+                if ext == 'operator.methodcaller' and F.args and isinstance(F.args[0], ast.Constant) and isinstance(F.args[0].value, str):
+                    return ast.Call(func=ast.Attribute(value=x, attr=F.args[0].value, ctx=ast.Load()), args=list(F.args[1:]), keywords=[])
+                if ext == 'operator.itemgetter' and len(F.args) == 1:
+                    return ast.Subscript(value=x, slice=F.args[0], ctx=ast.Load())
+                if ext == 'operator.attrgetter' and len(F.args) == 1 and isinstance(F.args[0], ast.Constant) and isinstance(F.args[0].value, str) \
+                        and F.args[0].value.isidentifier():
+                    return ast.Attribute(value=x, attr=F.args[0].value, ctx=ast.Load())
+            if isinstance(F, ast.Constant) and F.value is None and f.id == 'filter':
+                return x
+            if isinstance(F, ast.Call) and not F.keywords and len(F.args) == 2:
+                # functools.partial(operator.is_not, A): lambda v: A is not v
+                r0 = self.prog.resolve_name(F.func.id, self.fn.module) if isinstance(F.func, ast.Name) else \
+                    self.prog.resolve_expr_static(F.func, self.fn.module) if isinstance(F.func, ast.Attribute) else None
+                r1 = self.prog.resolve_name(F.args[0].id, self.fn.module) if isinstance(F.args[0], ast.Name) else \
+                    self.prog.resolve_expr_static(F.args[0], self.fn.module) if isinstance(F.args[0], ast.Attribute) else None
+                if r0 and r0[0] == 'ext' and r0[1] == 'functools.partial' and r1 and r1[0] == 'ext' and r1[1] in ('operator.is_not', 'operator.is_'):
+                    return ast.Compare(left=F.args[1], ops=[ast.IsNot() if r1[1].endswith('is_not') else ast.Is()], comparators=[x])
+            if isinstance(F, ast.Name) and F.id not in st.env:
+                r2 = self.prog.resolve_name(F.id, self.fn.module)
+                if r2 is None and F.id in ('dict', 'list', 'tuple', 'set', 'str', 'int', 'float', 'bool', 'len', 'abs', 'type', 'id', 'repr'):
+                    return ast.Call(func=F, args=[x], keywords=[])
+                if r2 is not None and r2[0] == 'modattr':
+                    v = r2[1][0].assigns.get(r2[1][1])
+                    if isinstance(v, (ast.Lambda, ast.Call)):
+                        return apply(v)
+            return None
+        if isinstance(F, ast.Name) and F.id in st.env:
+            # a local bound exactly once in this function to a lambda / operator helper whose free names are not rebound
+            defs = [n for n in ast.walk(self.fn.node) if isinstance(n, ast.Assign) and len(n.targets) == 1 and
+                    isinstance(n.targets[0], ast.Name) and n.targets[0].id == F.id]
+            stores = [n for n in ast.walk(self.fn.node) if isinstance(n, ast.Name) and n.id == F.id and isinstance(n.ctx, (ast.Store, ast.Del))]
+            if len(defs) == 1 and len(stores) == 1 and isinstance(defs[0].value, (ast.Lambda, ast.Call)):
+                free = {n.id for n in ast.walk(defs[0].value) if isinstance(n, ast.Name)}
+                rebound = [n for n in ast.walk(self.fn.node) if isinstance(n, ast.Name) and n.id in free and
+                           isinstance(n.ctx, (ast.Store, ast.Del)) and getattr(n, 'lineno', 0) > defs[0].lineno]
+                if not rebound:
+                    F = defs[0].value
+        body = apply(F)
+        if body is None:
+            return None
+        gen = ast.comprehension(target=ast.Name(id=var, ctx=ast.Store()), iter=X, ifs=[body] if f.id == 'filter' else [], is_async=0)
+        g = ast.GeneratorExp(elt=x if f.id == 'filter' else body, generators=[gen])
+        ast.copy_location(g, e)
+        ast.fix_missing_locations(g)
+        return g
+
     def ex_Call(self, e: ast.Call, st: State) -> Term:
         f = e.func
+        ge = getattr(e, '_as_genexp', None)
+        if ge is None:
+            ge = self._functional_as_genexp(e, st) or False
+            try:
+                e._as_genexp = ge
+            except Exception:
+                pass
+        if ge:
+            return self.ev(ge, st)
         if isinstance(f, ast.Name) and isinstance(st.env.get(f.id), Sym) and not getattr(e, '_redispatched', False):
             # a local that holds a builtin or a library function (picked from a table): the call it stands for
             nm = st.env[f.id].name
@@ -2367,8 +2517,46 @@ class _Ctx:
                 ast.fix_missing_locations(e2)
                 e2._redispatched = True
                 return self.ex_Call(e2, st)
+        if isinstance(f, ast.Name) and f.id in st.env and not getattr(e, '_unpartial', None) and not e.args and not e.keywords:
+            # a thunk: a local bound once to functools.partial(g, a..., k=v...) whose argument names are not rebound, called without
+            # arguments, is g(a..., k=v...).  (A partial that still takes arguments stays a value: the batch rules identify the
+            # worker callable and its work items from it.)
+            pv = st.env[f.id]
+            if isinstance(pv, App) and pv.fn == 'call' and pv.args and pv.args[0] == Sym('functools.partial'):
+                defs = [n for n in ast.walk(self.fn.node) if isinstance(n, ast.Assign) and len(n.targets) == 1 and
+                        isinstance(n.targets[0], ast.Name) and n.targets[0].id == f.id]
+                stores = [n for n in ast.walk(self.fn.node) if isinstance(n, ast.Name) and n.id == f.id and isinstance(n.ctx, (ast.Store, ast.Del))]
+                if len(defs) == 1 and len(stores) == 1 and isinstance(defs[0].value, ast.Call) and defs[0].value.args and \
+                        not any(isinstance(a, ast.Starred) for a in defs[0].value.args) and \
+                        not any(isinstance(n, ast.Call) for a in defs[0].value.args[1:] for n in ast.walk(a)):
+                    pc = defs[0].value
+                    free = {n.id for a in list(pc.args) + [k.value for k in pc.keywords] for n in ast.walk(a) if isinstance(n, ast.Name)}
+                    rebound = [n for n in ast.walk(self.fn.node) if isinstance(n, ast.Name) and n.id in free and
+                               isinstance(n.ctx, (ast.Store, ast.Del)) and getattr(n, 'lineno', 0) > defs[0].lineno]
+                    if not rebound and not any(k.arg in {k2.arg for k2 in e.keywords} for k in pc.keywords if k.arg):
+                        e2 = ast.Call(func=pc.args[0], args=list(pc.args[1:]) + list(e.args), keywords=list(pc.keywords) + list(e.keywords))
+                        ast.copy_location(e2, e)
+                        ast.fix_missing_locations(e2)
+                        e2._unpartial = True
+                        return self.ex_Call(e2, st)
         args = [self.ev(a, st) for a in e.args]
         kw = {k.arg if k.arg is not None else '**': self.ev(k.value, st) for k in e.keywords}
+        # operator.lt(a, b) and friends are the comparisons they name
+        if not kw and len(args) in (1, 2) and isinstance(f, (ast.Attribute, ast.Name)):
+            try:
+                r_op = self.prog.resolve_expr_static(f, self.fn.module) if isinstance(f, ast.Attribute) and self._is_static_chain(f, st) else \
+                    (self.prog.resolve_name(f.id, self.fn.module) if isinstance(f, ast.Name) and f.id not in st.env else None)
+            except Exception:
+                r_op = None
+            if r_op and r_op[0] == 'ext' and isinstance(r_op[1], str) and r_op[1].startswith('operator.'):
+                opn = r_op[1][9:]
+                OPS = {'lt': ast.Lt, 'le': ast.LtE, 'gt': ast.Gt, 'ge': ast.GtE, 'eq': ast.Eq, 'ne': ast.NotEq, 'is_': ast.Is, 'is_not': ast.IsNot}
+                if opn in OPS and len(args) == 2:
+                    return BoolT(self.cmp(OPS[opn](), args[0], args[1], st))
+                if opn == 'contains' and len(args) == 2:
+                    return BoolT(self.cmp(ast.In(), args[1], args[0], st))
+                if opn == 'not_' and len(args) == 1:
+                    return BoolT(f_not(self.formula(args[0], st)))
         tgt: CallTarget = self.ti.resolve_call(e, self.fn, self.types)
         # flow-sensitive refinement: a local that holds a known package function on this path (reaching definition)
         if isinstance(f, ast.Name) and f.id in st.env and isinstance(st.env[f.id], Sym) and st.env[f.id].name.startswith('<func '):
@@ -2446,6 +2634,9 @@ class _Ctx:
                 self.store_event(st, e, fake, Attr(args[0], args[1].value), 'rebind', value=args[2], attr=args[1].value, aug=None,
                                  operand=None, base=args[0], base_expr=e.args[0], base_type=bt)
                 return Const(None)
+            if b == 'list' and len(args) == 1 and not kw and isinstance(args[0], Fresh) and args[0].kind == 'gen' and \
+                    getattr(args[0], 'detail', None) is not None:
+                return Fresh('listcomp', (), args[0].site, args[0].detail)       # list(<generator expression>) is the comprehension
             if b in ('tuple', 'list') and len(args) == 1 and isinstance(args[0], Fresh) and st.contents.get(args[0]) is not None:
                 if b == 'tuple':
                     return TupleT(tuple(st.contents[args[0]]))
@@ -2477,6 +2668,15 @@ class _Ctx:
                     for c, v in reversed(rows):
                         acc = v if c == FTrue else (acc if c == FFalse else IfT(c, v, acc))
                     return acc
+            if b == 'next' and len(args) == 2 and not kw and isinstance(args[0], Fresh) and getattr(args[0], 'detail', None) is not None \
+                    and len(args[0].detail.gens) == 1 and isinstance(args[0].detail.elt, Const) and isinstance(args[1], Const) \
+                    and isinstance(args[0].detail.elt.value, bool) and isinstance(args[1].value, bool) and args[0].detail.elt.value != args[1].value:
+                # next((False for x in X if c), True) is all(not c ...); next((True for x in X if c), False) is any(c ...)
+                d0 = args[0].detail
+                tgt0, it0, conds0 = d0.gens[0]
+                g2 = Fresh('gen', (), args[0].site, CompInfo(BoolT(f_and(*conds0)), ((tgt0, it0, ()),)))
+                anyf = ATruthy(App('any', (g2,)))
+                return BoolT(anyf if d0.elt.value else f_not(anyf))
             if b in ('all', 'any', 'tuple', 'list') and len(args) == 1 and isinstance(e.args[0], (ast.GeneratorExp, ast.ListComp)) \
                     and len(e.args[0].generators) == 1 and not e.args[0].generators[0].ifs:
                 g = e.args[0].generators[0]
